@@ -2,6 +2,7 @@
 (* Histories of storage operations on one stored data type (property C16):
      Make(l)                         Context.make into the data directory l
      Copy(a, b, c, rc)               Context.copy_to_frontend from a to b, compressor c (or the source's), rechunk rc
+     CopyAll(a, c, rc)               Context.copy_to_frontend without a target: into every other location that lacks the data
      Rewrite(a, d, c, rc)            the stand-alone strax.rechunker: d = a rewrites in place (replace), d # a writes a new copy
      Load(l, rol)                    get_array / get_iter from l, optionally rechunking on load
    (strax/context.py copy_to_frontend, strax/storage/file_rechunker.py, strax/storage/common.py loader / saver).
@@ -56,6 +57,13 @@ CopyTo(a, b, c, rc, F) == /\ a # b /\ store[a].present /\ ~store[b].present /\ I
                           /\ store' = [store EXCEPT ![b] = [present |-> TRUE, E |-> F, comp |-> IF c = "same" THEN store[a].comp ELSE c]]
                           /\ nops' = nops + 1 /\ lastLoad' = "none"
 Copy(a, b, c, rc) == \E F \in Regroupings(store[a].E, rc) : CopyTo(a, b, c, rc, F)
+\* one call, several destinations: each gets a complete copy (Fs[l] = the edges written at destination l)
+CopyAllTo(a, c, rc, Fs) == LET D == {l \in Locs \ {a} : ~store[l].present} IN
+                           /\ store[a].present /\ D # {} /\ DOMAIN Fs = D /\ \A l \in D : IsRegroup(store[a].E, Fs[l], rc)
+                           /\ store' = [l \in Locs |-> IF l \in D THEN [present |-> TRUE, E |-> Fs[l], comp |-> IF c = "same" THEN store[a].comp ELSE c]
+                                                       ELSE store[l]]
+                           /\ nops' = nops + 1 /\ lastLoad' = "none"
+CopyAll(a, c, rc) == \E Fs \in [{l \in Locs \ {a} : ~store[l].present} -> Regroupings(store[a].E, rc)] : CopyAllTo(a, c, rc, Fs)
 RewriteTo(a, d, c, rc, F) == /\ store[a].present /\ (d # a => ~store[d].present) /\ IsRegroup(store[a].E, F, rc)
                              /\ store' = [store EXCEPT ![d] = [present |-> TRUE, E |-> F, comp |-> IF c = "same" THEN store[a].comp ELSE c]]
                              /\ nops' = nops + 1 /\ lastLoad' = "none"
@@ -65,6 +73,7 @@ Load(l) == /\ store[l].present /\ lastLoad' = l /\ nops' = nops + 1 /\ UNCHANGED
 Next == /\ nops < MaxOps
         /\ \/ \E l \in Locs : Make(l) \/ Load(l)
            \/ \E a \in Locs, b \in Locs, c \in Comps \cup {"same"}, rc \in BOOLEAN : Copy(a, b, c, rc) \/ Rewrite(a, b, c, rc)
+           \/ \E a \in Locs, c \in Comps \cup {"same"}, rc \in BOOLEAN : CopyAll(a, c, rc)
 Spec == Init /\ [][Next]_vars
 
 (* ---------------------------------- P-level (C16) ---------------------------------- *)
